@@ -616,7 +616,7 @@ class Interp:
                 if a and a["kind"] == "enum":
                     d = int(a["variants"][v[3]]["discr"])
                 elif (v[2] or "").endswith("cmp::Ordering"):
-                    return top_int(64, True)                    # discriminants -1/0/1, not the variant index: left unknown
+                    return const(v[3] - 1, 8, True)             # Less / Equal / Greater are -1 / 0 / 1 in an i8
                 return const(d, 64, True)
             return top_int(64, True)
         if k == "Aggregate":
